@@ -181,11 +181,11 @@ def r03_3(ctx):
 
 
 def run(ctx):
-    r03_1(ctx)
-    r03_2(ctx)
-    r03_3(ctx)
+    ctx.step(r03_1, ctx)
+    ctx.step(r03_2, ctx)
+    ctx.step(r03_3, ctx)
     R34 = ctx.rule('R03.4', 'seek endgames: inclusive steps back one transition and pops one key byte; exclusive pushes the child frame at transition 0 with the whole bound\'s output; divergence resumes at the first larger byte', floor=5)
     R35 = ctx.rule('R03.5', 'DFS step: stack and key buffer move in lock step on every path; frame contents, emitted key/value and cut-off placement', floor=8)
     R36 = ctx.rule('R03.6', 'empty key: armed iff the lower bound is empty and inclusive; emitted only after the cut-off test on the empty string', floor=4)
-    streams.seek_rules(ctx, None, None, R34, R36, want_c03=True, want_c04=False, R35s=R35)
-    streams.next_rules(ctx, None, None, None, None, None, R35, R36, want_c03=True, want_c04=False)
+    ctx.step(streams.seek_rules, ctx, None, None, R34, R36, want_c03=True, want_c04=False, R35s=R35)
+    ctx.step(streams.next_rules, ctx, None, None, None, None, None, R35, R36, want_c03=True, want_c04=False)
